@@ -106,6 +106,32 @@ def ofBits (n : Nat) (f : Nat → Bool) : List Byte :=
 def specSet (s : List Byte) (off w : Nat) (v : BitVec 64) : List Byte :=
   ofBits s.length (specSetBit s off w v)
 
+/-! ## big-endian branches (`cfg!(target_endian = "big")`)
+
+Every byte is bit-reversed on the way in and out (`reverse_bits`), and the value is reversed
+within the field width: the first storage bit of the field is the value's most significant bit. -/
+
+def getBE (s : List Byte) (off w : Nat) : BitVec 64 :=
+  if w = 0 then 0 else (get (s.map BitVec.reverse) off w).reverse >>> (64 - w)
+
+def setBE (s : List Byte) (off w : Nat) (v : BitVec 64) : List Byte :=
+  if w = 0 then s else
+  let v' := (v &&& lowMask 64 w).reverse >>> (64 - w)
+  (set (s.map BitVec.reverse) off w v').map BitVec.reverse
+
+/-- bit `j` of the object in the big-endian bit numbering of `get_bit` / `set_bit` -/
+def bitAtBE (s : List Byte) (j : Nat) : Bool := (s.getD (j / 8) 0).getLsbD (7 - j % 8)
+
+def specGetBE (s : List Byte) (off w : Nat) : BitVec 64 :=
+  BitVec.ofNat 64 ((List.range w).foldl (fun acc i => acc + (if bitAtBE s (off + (w - 1 - i)) then 2 ^ i else 0)) 0)
+
+def ofBitsBE (n : Nat) (f : Nat → Bool) : List Byte :=
+  (List.range n).map fun b => BitVec.ofNat 8
+    ((List.range 8).foldl (fun acc i => acc + (if f (8 * b + (7 - i)) then 2 ^ i else 0)) 0)
+
+def specSetBE (s : List Byte) (off w : Nat) (v : BitVec 64) : List Byte :=
+  ofBitsBE s.length fun j => if off ≤ j ∧ j < off + w then v.getLsbD (w - 1 - (j - off)) else bitAtBE s j
+
 /-! ## Allocation-unit constructor (`new_bitfield_N`): a sequence of `set`s on a zero unit -/
 
 structure Field where
